@@ -6,7 +6,6 @@ C17 runtime: everything needed to run one well-nested program against the REAL f
 import itertools
 from collections import OrderedDict
 
-import funsor
 import funsor.ops as ops
 from funsor.domains import Real
 
